@@ -1528,6 +1528,35 @@ pub fn run_c19(ctx: &Ctx) -> i32 {
         }
     }
     ctx.add("distinct_event_sequences", distinct.len() as u64);
+    // independence of what the process searched before: P, then every successor of P (each
+    // with fresh memory and the same seed), then P again - the two event sequences of P must
+    // be identical (state must not travel between searches except through the artifact)
+    {
+        let chain_roots: Vec<&Pos> = positions.iter().step_by((positions.len() / if quick { 40 } else { 400 }).max(1)).collect();
+        ctx.add("take_back_chains", chain_roots.len() as u64);
+        par_for(ctx, &chain_roots, |p, l| {
+            for mode in [0u8, 1] {
+                let (s, d) = (seeds[0], 3);
+                let a = c19_digest(p, s, d, mode);
+                for (_, succ) in p.legal().into_iter().take(if quick { 6 } else { 40 }) {
+                    if succ.has_legal_move() {
+                        let _ = c19_digest(&succ, s, d, mode);
+                        l.add("searches", 1);
+                    }
+                }
+                let b = c19_digest(p, s, d, mode);
+                l.add("searches", 2);
+                if a != b {
+                    ctx.violation(
+                        "search-depends-on-earlier-searches",
+                        format!("{} seed {} depth {} {}", p.fen(), s, d, ["public", "single-worker"][mode as usize]),
+                        json!({"fen": p.fen(), "seed": s, "depth": d, "public_entry_point": mode == 0, "between": "every successor searched with fresh memory and the same seed", "first": a, "again": b}),
+                    );
+                    return;
+                }
+            }
+        });
+    }
     // different seeds must be able to give different sequences (the seed is really used)
     ctx.sample(json!({"position": positions[0].fen(), "seed": seeds[0], "depth": 3, "event_sequence": first[2].lock().unwrap().clone()}));
     // the command-line front end: `weechess evaluate --seed` twice in separate processes
@@ -1549,7 +1578,7 @@ pub fn run_c19(ctx: &Ctx) -> i32 {
         ctx.get("searches") + schedules,
         ctx.get("searches") + schedules,
         exh,
-        &format!("{}{}", "every position of a strided complete sub-family (plus the corpus) x seeds {0,1,VERIF_SEED} x depth 1..3 through the public Searcher::analyze (fresh memory, three real threads) and depth 4 (thorough 5) with an explicit single worker, the latter also with a crowded memory of 1 table x 2 buckets at depth 3 and 4 (entries are displaced): the full event sequence (lines, evaluations, depths, node counts) of two runs in this process and of a third run in a separate process must be identical; under loom the public entry point (three threads) must produce one and the same event sequence on every schedule", LOOM_RULE),
+        &format!("{}{}", "every position of a strided complete sub-family (plus the corpus) x seeds {0,1,VERIF_SEED} x depth 1..3 through the public Searcher::analyze (fresh memory, three real threads) and depth 4 (thorough 5) with an explicit single worker, the latter also with a crowded memory of 1 table x 2 buckets at depth 3 and 4 (entries are displaced): the full event sequence (lines, evaluations, depths, node counts) of two runs in this process and of a third run in a separate process must be identical; take-back chains (P, each successor of P, P again, all with fresh memory and one seed): both sequences of P identical; under loom the public entry point (three threads) must produce one and the same event sequence on every schedule", LOOM_RULE),
         ASSUME,
     )
 }
